@@ -52,6 +52,13 @@
  *   collect                        full: GC_Mark + GC_Sweep
  *   churn <n>                      full: allocate n unreferenced objects (drives the threshold)
  *   deepchild <n> <kind>           forked child: chain of n, forced collection; records the outcome (F27 witness)
+ *   new <id> Y[!] - <where>        a Type made at run time: new(Type, "ProbeT", size, New instance) — an ordinary collector-managed object (a leaf for the marker)
+ *   new <id> Q <type id> <where>   an instance of the run-time type <type id> (one word slot, the probes' destructor): it refers to its Type through its
+ *                                  HEADER only.  The collector does not trace that pointer (known finding KF-C01-type-outlived): a collection is refused
+ *                                  (bad-op) unless the type of every registered instance is root-registered or reachable from the roots of that
+ *                                  collection (`typesAnchored` in the model); full mode: run-time types must be root-registered (Y!)
+ *   typechild -|r|s                forked child: T = new(Type, …) held by nothing (-) / root-registered (r) / also held by a root word (s), x = new(T) held by
+ *                                  a root word; two exact collections.  `-` is the known finding: the first releases T, the second reads it
  *   danglechild H|M                forked child: del(x) while a heap Tuple / user Mark instance holds x, then mark it (known finding)
  *   aliaschild A|L                 forked child: assign(tuple, Array|List of Ref) — the Tuple stores pointers INTO the source's element
  *                                  storage —, the source grows (A: realloc) / is cleared (L), then the Tuple is marked (known finding)
@@ -70,7 +77,7 @@
 #define NTLS 64
 #define MASK 0x5a5a5a5a5a5a5a5aULL
 
-enum { K_NONE = 0, K_P, K_M, K_R, K_B, K_A, K_L, K_T, K_E, K_H, K_W };   /* letters U / F: T / E with Ref keys; W: a Thread object */
+enum { K_NONE = 0, K_P, K_M, K_R, K_B, K_A, K_L, K_T, K_E, K_H, K_W, K_Y, K_Q };   /* letters U / F: T / E with Ref keys; W: a Thread object */
 enum { E_R = 0, E_I, E_S, E_F, E_X };                                  /* element / key / value types: Ref, Int, String, Float, ProbeE (element / value only) */
 enum { T_NIL = 0, T_OBJ, T_MIS, T_INT, T_LO, T_HI, T_SMALL };
 typedef struct { int t; long v; } Tok;
@@ -84,6 +91,7 @@ typedef struct {
   long* key;              /* map keys: integers (Int / String keys) or object ids (Ref keys) */
   int kt, vt;             /* CURRENT key type (T/E) and element / value type (A/L/T/E): redefined by assign */
   int raw;                /* allocated with new_raw: never registered */
+  int ty;                 /* Q: id+1 of the run-time Type object this object is an instance of (its header's type pointer) */
 } Sh;
 
 static Sh* sh;                       /* shadow graph */
@@ -159,6 +167,15 @@ static void ProbeE_Del(var self) { probeE_call(); }
 static void ProbeE_Assign(var self, var obj) { ((struct ProbeE*)self)->ref = ((struct ProbeE*)cast(obj, ProbeE))->ref; probeE_call(); }
 var ProbeE = Cello(ProbeE, Instance(New, NULL, ProbeE_Del), Instance(Assign, ProbeE_Assign));
 
+/* the New instance of the run-time types (static storage: a Type object stores pointers to its instance objects) */
+static struct { struct Header h; struct New n; } rt_new_inst;
+static long n_types = 0;
+static var make_rt_type(int rootflag) {
+  var inst = header_init(&rt_new_inst.h, New, AllocStatic);
+  rt_new_inst.n.construct_with = NULL; rt_new_inst.n.destruct = Probe_Del;
+  n_types++;
+  return rootflag ? new_root(Type, $S("ProbeT"), $I(sizeof(struct Probe1)), inst) : new(Type, $S("ProbeT"), $I(sizeof(struct Probe1)), inst);
+}
 static var probe_type(int k) { return k == 1 ? Probe1 : k == 2 ? Probe2 : k == 4 ? Probe4 : Probe8; }
 
 /* ---------------------------------------------------------------- helpers */
@@ -209,7 +226,7 @@ static void sh_grow(Sh* o) {
     o->key = realloc(o->key, o->cap * sizeof(long));
   }
 }
-static int is_words(int kind) { return kind == K_P || kind == K_M || kind == K_R || kind == K_B; }
+static int is_words(int kind) { return kind == K_P || kind == K_M || kind == K_R || kind == K_B || kind == K_Q; }
 static int is_seq(int kind) { return kind == K_A || kind == K_L || kind == K_H; }
 static int is_arr(int kind) { return kind == K_A || kind == K_L; }
 static int is_map(int kind) { return kind == K_T || kind == K_E; }
@@ -280,6 +297,7 @@ static var word_load(int id, int slot) {
 }
 
 static int want_raw = 0;
+static int want_ty = -1;           /* make_real(K_Q): the id of the run-time Type */
 static var make_real(int kind, int k, int rootflag, long id, int kt, int vt) {
   var p = NULL;
   if (want_raw) {
@@ -301,8 +319,10 @@ static var make_real(int kind, int k, int rootflag, long id, int kt, int vt) {
     case K_E: p = rootflag ? new_root(Tree, ety_type(kt), ety_type(vt)) : new(Tree, ety_type(kt), ety_type(vt)); break;
     case K_H: p = rootflag ? new_root(Tuple) : new(Tuple); break;
     case K_W: p = rootflag ? new_root(Thread) : new(Thread); break;
+    case K_Y: p = make_rt_type(rootflag); break;
+    case K_Q: p = rootflag ? alloc_root(P(want_ty)) : alloc(P(want_ty)); break;
   }
-  if (kind == K_P || kind == K_M) { struct ProbeHead* h = p; h->id = id; h->canary = canary_of(id); }
+  if (kind == K_P || kind == K_M || kind == K_Q) { struct ProbeHead* h = p; h->id = id; h->canary = canary_of(id); }
   return p;
 }
 
@@ -320,10 +340,12 @@ static int elem_is(var e, int ety, Tok t) {
 /* content of a usable object equals the shadow (reads the object: ASan faults on freed memory) */
 static int content_ok(int id) {
   Sh* o = &sh[id]; var p = P(id);
-  if (o->kind == K_P || o->kind == K_M) {
+  if (o->kind == K_P || o->kind == K_M || o->kind == K_Q) {
     struct ProbeHead* h = p;
     if (h->id != id || h->canary != canary_of(id)) return 0;
   }
+  if (o->kind == K_Q) { if (type_of(p) != P(o->ty - 1) || size(type_of(p)) != sizeof(struct Probe1)) return 0; }   /* reads the Type object */
+  if (o->kind == K_Y) return type_of(p) == Type && size(p) == sizeof(struct Probe1);
   if (is_words(o->kind)) { for (int i = 0; i < o->n; i++) if (word_load(id, i) != tok_word(o->el[i])) return 0; return 1; }
   if (o->kind == K_W) {
     if (type_of(p) != Thread) return 0;
@@ -370,7 +392,8 @@ static void oracle_survivors(const char* when) {
 static int kind_letter(char c, int* kt, int* vt) {
   *kt = E_R; *vt = E_R;
   switch (c) { case 'P': return K_P; case 'M': return K_M; case 'R': return K_R; case 'B': return K_B; case 'A': return K_A; case 'L': return K_L;
-    case 'T': *kt = E_I; return K_T; case 'U': return K_T; case 'E': *kt = E_I; return K_E; case 'F': return K_E; case 'H': return K_H; case 'W': return K_W; }
+    case 'T': *kt = E_I; return K_T; case 'U': return K_T; case 'E': *kt = E_I; return K_E; case 'F': return K_E; case 'H': return K_H; case 'W': return K_W;
+    case 'Y': return K_Y; case 'Q': return K_Q; }
   return K_NONE;
 }
 static int kind_of(const char* s, int* rootflag, int* kt, int* vt) {
@@ -516,6 +539,30 @@ static void shadow_del(int id) {
   if (o->kind == K_B && o->el[0].t == T_OBJ && usable(o->el[0].v)) shadow_del((int)o->el[0].v);
 }
 
+/* ---------------------------------------------------------------- run-time types: the header's type pointer (known finding KF-C01-type-outlived)
+   An instance refers to its Type through its header only; the collector does not trace that pointer.  In contract: the Type of every REGISTERED
+   instance (reachable or not: a swept instance finds its destructor through its Type) is root-registered or reachable from the roots. */
+static int has_instances(int t) { for (int i = 0; i <= maxid; i++) if (sh[i].used && sh[i].alive && sh[i].ty == t + 1) return 1; return 0; }
+static int types_anchored(Tok* words, int nw, int roots_only) {
+  if (!n_types) return 1;
+  if (!roots_only) shadow_reach(words, nw, 0);
+  for (int i = 0; i <= maxid; i++) {
+    if (!sh[i].used || !sh[i].alive || sh[i].raw || !sh[i].ty) continue;
+    int t = sh[i].ty - 1;
+    if (!usable(t) || !(sh[t].rootflag || (!roots_only && reach[t]))) return 0;
+  }
+  return 1;
+}
+/* before the teardown: delete the instances of run-time types by hand (the final sweep may release a Type before its instances: C06 / C19) */
+static void drop_instances(void) {
+  if (!n_types) return;
+  for (int i = 0; i <= maxid; i++) {
+    if (!sh[i].used || sh[i].kind != K_Q) continue;
+    var p = P(i); int t = sh[i].ty - 1;
+    if (GC_Mem_Ptr(G(), p) && ((struct Header*)p - 1)->type == P(t)) del(p);
+  }
+}
+
 /* the three phases of GC_Mark with a chosen word list instead of the stack (C01_MARK_CLEARS_FIRST: defined by vlib/props/c01.py when the
    GC_Mark of the tree under test clears every mark bit before its first phase) */
 static __attribute__((noinline)) void mark_phases(Tok* words, int nw) {
@@ -569,8 +616,8 @@ static __attribute__((noinline)) void finish_collect(const char* tag) {
   size_t nfreed = 0;
   for (int i = 0; i <= maxid; i++) {
     if (!sh[i].used || !sh[i].alive || sh[i].raw) continue;
-    int gone = (sh[i].kind == K_P || sh[i].kind == K_M) ? fin[i] > 0 : !GC_Mem_Ptr(gc, P(i));
-    if ((sh[i].kind == K_P || sh[i].kind == K_M) && (fin[i] > 0) != !GC_Mem_Ptr(gc, P(i)))
+    int gone = (sh[i].kind == K_P || sh[i].kind == K_M || sh[i].kind == K_Q) ? fin[i] > 0 : !GC_Mem_Ptr(gc, P(i));
+    if ((sh[i].kind == K_P || sh[i].kind == K_M || sh[i].kind == K_Q) && (fin[i] > 0) != !GC_Mem_Ptr(gc, P(i)))
       X("sig=gc-ledger line=%zu what=probe %d: finalised=%d but registered=%d after the sweep", curline, i, fin[i], (int)GC_Mem_Ptr(gc, P(i)));
     if (gone) { fr[i] = 1; nfreed++; }
   }
@@ -639,7 +686,7 @@ static __attribute__((noinline)) void do_collect(void) {
   n_collect_forced++;
   oracle_survivors("forced collection");
   size_t freed = 0;
-  for (int i = 0; i <= maxid; i++) if (sh[i].used && sh[i].alive && !reach[i]) { sh[i].alive = 0; note_garbage(i); if ((sh[i].kind == K_P || sh[i].kind == K_M) ? fin[i] > 0 : !GC_Mem_Ptr(G(), P(i))) freed++; }
+  for (int i = 0; i <= maxid; i++) if (sh[i].used && sh[i].alive && !reach[i]) { sh[i].alive = 0; note_garbage(i); if ((sh[i].kind == K_P || sh[i].kind == K_M || sh[i].kind == K_Q) ? fin[i] > 0 : !GC_Mem_Ptr(G(), P(i))) freed++; }
   n_freed_total += freed;
   O("c live=%s", set_text(reach, 1));
   I("collect line=%zu unreachable-freed=%zu registered=%zu", curline, freed, G()->nitems);
@@ -1000,6 +1047,50 @@ static void alias_child(int kind) {
   }
 }
 
+/* known finding KF-C01-type-outlived, in a forked child: x = new(T) for a Type T made at run time.  `-`: nothing but x's header refers to T;
+   `r`: T is root-registered; `s`: the program also keeps T in a root word.  Two exact collections with x as a root word: the first must keep T
+   (it is reachable through the header of a reachable object), the second must run to completion. */
+static void type_child(char anchor) {
+  fflush(stdout);
+  int pfd[2]; if (pipe(pfd) != 0) { O("typechild %c pipe-failed", anchor); return; }
+  pid_t pid = fork();
+  if (pid == 0) {
+    alarm(30);
+    exiting = 1;
+    close(pfd[0]);
+    int devnull = open("/dev/null", 1); if (devnull >= 0) dup2(devnull, 2);
+    struct GC* gc = G(); gc->mitems = ((size_t)1) << 60;
+    var T = make_rt_type(anchor == 'r');
+    gc->mitems = ((size_t)1) << 60;
+    var x = alloc(T);
+    gc->mitems = ((size_t)1) << 60;
+    uintptr_t tm = ((uintptr_t)T) ^ MASK;
+    for (int round = 0; round < 2; round++) {
+      for (size_t i = 0; i < gc->nslots; i++) gc->entries[i].marked = false;
+      for (size_t i = 0; i < gc->nslots; i++)
+        if (gc->entries[i].hash && gc->entries[i].root && !gc->entries[i].marked) { gc->entries[i].marked = true; GC_Recurse(gc, gc->entries[i].ptr); }
+      GC_Mark_Item(gc, x);
+      if (anchor == 's') GC_Mark_Item(gc, (var)(tm ^ MASK));
+      GC_Sweep(gc);
+      gc->mitems = ((size_t)1) << 60;
+      if (round == 0) { char c = GC_Mem_Ptr(gc, (var)(tm ^ MASK)) ? 'K' : 'S'; if (write(pfd[1], &c, 1) != 1) _exit(5); }
+    }
+    _exit(GC_Mem_Ptr(gc, x) ? 0 : 6);
+  }
+  close(pfd[1]);
+  char c = '?'; if (read(pfd[0], &c, 1) != 1) c = '?';
+  close(pfd[0]);
+  int st = 0; waitpid(pid, &st, 0);
+  int ok2 = WIFEXITED(st) && WEXITSTATUS(st) == 0;
+  O("typechild %c type=%s second=%s", anchor, c == 'K' ? "kept" : c == 'S' ? "released" : "unknown", ok2 ? "completed" : "failed");
+  if (c != 'K' || !ok2) {
+    I("typechild outcome=%s%d", WIFSIGNALED(st) ? "signal" : "exit", WIFSIGNALED(st) ? WTERMSIG(st) : WEXITSTATUS(st));
+    X("sig=gc-type-outlived line=%zu what=the run-time Type of a reachable object was %s by a collection (the header's type pointer is not traced); the next collection %s (%s %d)",
+      curline, c == 'K' ? "kept" : "released", ok2 ? "completed" : "did not complete: GC_Recurse read the released Type",
+      WIFSIGNALED(st) ? "signal" : "exit status", WIFSIGNALED(st) ? WTERMSIG(st) : WEXITSTATUS(st));
+  }
+}
+
 #define BAD do { O("bad-op"); goto next; } while (0)
 
 int main(int argc, char** argv) {
@@ -1039,9 +1130,12 @@ int main(int argc, char** argv) {
       if (!parse_where(w[4], &slot)) BAD;
       int k = 0;
       if (kind == K_P) { if (!parse_long(w[3], &arg) || !(arg == 1 || arg == 2 || arg == 4 || arg == 8)) BAD; k = (int)arg; }
-      else if (kind == K_B) { if (!parse_long(w[3], &arg) || !usable(arg) || owned(arg) || ghost[arg] || sh[arg].kind == K_B || sh[arg].rootflag || has_incoming_x((int)arg, slot)) BAD; k = 1; }
+      else if (kind == K_B) { if (!parse_long(w[3], &arg) || !usable(arg) || owned(arg) || ghost[arg] || sh[arg].kind == K_B || sh[arg].kind == K_Y || sh[arg].kind == K_Q || sh[arg].rootflag || has_incoming_x((int)arg, slot)) BAD; k = 1; }
+      else if (kind == K_Y) { if (strcmp(w[3], "-") || (mode_full && !rf)) BAD; k = 0; }
+      else if (kind == K_Q) { if (rf || !parse_long(w[3], &arg) || !usable(arg) || sh[arg].kind != K_Y) BAD; k = 1; want_ty = (int)arg; }
       else { if (!parse_types(kind, w[3], &kt, &vt)) BAD; k = kind == K_M ? 4 : kind == K_R ? 1 : 0; }
       do_new(id, kind, k, rf, arg, slot, kt, vt);
+      if (kind == K_Q) sh[id].ty = (int)arg + 1;
       if (mode_full) O("new %ld live=%s", id, set_text(reach, 1)); else O("new %ld", id);
     } else if (!strcmp(w[0], "pair")) {
       started = 1;
@@ -1055,7 +1149,7 @@ int main(int argc, char** argv) {
     } else if (!strcmp(w[0], "store")) {
       long id, slot; Tok t;
       if (nw != 4 || !parse_long(w[1], &id) || !usable(id) || !parse_long(w[2], &slot) || !parse_tok(w[3], &t) || !tok_ok(t)) BAD;
-      if (!(sh[id].kind == K_P || sh[id].kind == K_M || sh[id].kind == K_R) || slot < 0 || slot >= sh[id].k) BAD;
+      if (!(sh[id].kind == K_P || sh[id].kind == K_M || sh[id].kind == K_R || sh[id].kind == K_Q) || slot < 0 || slot >= sh[id].k) BAD;
       if (sh[id].kind == K_M && !(t.t == T_OBJ || t.t == T_NIL)) BAD;   /* its Mark instance hands every non-NULL slot to the callback */
       if (sh[id].kind == K_M && t.t == T_OBJ && sh[t.v].raw) BAD;       /* ... which would trace an unregistered object */
       word_store((int)id, (int)slot, tok_word(t)); sh[id].el[slot] = t;
@@ -1162,10 +1256,11 @@ int main(int argc, char** argv) {
       long id;
       if (nw != 2 || !parse_long(w[1], &id) || !usable(id) || has_incoming((int)id) || ghost[id] || stale_now) BAD;
       if (sh[id].kind == K_B && sh[id].el[0].t == T_OBJ && usable(sh[id].el[0].v) && sh[sh[id].el[0].v].kind == K_B) BAD;
+      if (sh[id].kind == K_Y && (mode_full || has_instances((int)id))) BAD;      /* del of a Type that still has instances: misuse */
       del_count = 0; shadow_del((int)id);
       if (sh[id].raw) del_raw(P((int)id)); else del(P((int)id));
       pin();
-      if ((sh[id].kind == K_P || sh[id].kind == K_M) && fin[id] != 1) X("sig=gc-ledger line=%zu what=del of probe %ld ran its destructor %d times", curline, id, fin[id]);
+      if ((sh[id].kind == K_P || sh[id].kind == K_M || sh[id].kind == K_Q) && fin[id] != 1) X("sig=gc-ledger line=%zu what=del of probe %ld ran its destructor %d times", curline, id, fin[id]);
       if (GC_Mem_Ptr(G(), P((int)id))) X("sig=gc-registry line=%zu what=object %ld still registered after del", curline, id);
       O("del %d", del_count);
     } else if (!strcmp(w[0], "chain")) {
@@ -1186,7 +1281,7 @@ int main(int argc, char** argv) {
       started = 1;
       Tok ws[40]; int ok = 1;
       for (int i = 1; i < nw; i++) if (!parse_tok(w[i], &ws[i - 1]) || !tok_ok(ws[i - 1])) ok = 0;
-      if (!ok) BAD;
+      if (!ok || !types_anchored(ws, nw - 1, 0)) BAD;
       do_xcollect(ws, nw - 1);
     } else if (!strcmp(w[0], "xraise")) {
       long id;
@@ -1195,14 +1290,14 @@ int main(int argc, char** argv) {
       if (!parse_long(w[1], &id) || !usable(id) || sh[id].kind != K_M) BAD;
       Tok ws[40]; int ok = 1;
       for (int i = 2; i < nw; i++) if (!parse_tok(w[i], &ws[i - 2]) || !tok_ok(ws[i - 2])) ok = 0;
-      if (!ok) BAD;
+      if (!ok || !types_anchored(ws, nw - 2, 0)) BAD;
       do_xraise(id, ws, nw - 2);
     } else if (!strcmp(w[0], "xbox")) {
       long id, tg;
       if (mode_full || stale_now || nw != 3) BAD;
       started = 1;
       if (!parse_long(w[1], &id) || id < 0 || id >= MAXOBJ || sh[id].used || !parse_long(w[2], &tg)) BAD;
-      if (!usable(tg) || owned(tg) || sh[tg].kind == K_B || sh[tg].raw) BAD;
+      if (!usable(tg) || owned(tg) || sh[tg].kind == K_B || sh[tg].kind == K_Y || sh[tg].kind == K_Q || sh[tg].raw) BAD;
       do_new(id, K_B, 1, 0, tg, -1, E_R, E_R);
       O("new %ld", id);
     } else if (!strcmp(w[0], "newraw")) {
@@ -1228,6 +1323,7 @@ int main(int argc, char** argv) {
       if (!inner_parse(w + bar + 1, nw - bar - 1, &q)) BAD;
       int nd, na; inner_calls(&q, &nd, &na);
       if (inner_safe(&q, (int)k) < 0) BAD;
+      if (!types_anchored(NULL, 0, 1)) BAD;
       if (full) scrub_stack();        /* the region do_mid's own frame is about to occupy: no stale pointers from the frames of earlier ops */
       do_mid(&q, k, ws, bar - 2, full);
     } else if (!strcmp(w[0], "arem") || !strcmp(w[0], "concat") || !strcmp(w[0], "ins")) {
@@ -1267,6 +1363,9 @@ int main(int argc, char** argv) {
       if (nw != 2 || !(!strcmp(w[1], "H") || !strcmp(w[1], "M"))) BAD;
       dangle_child(!strcmp(w[1], "H") ? K_H : K_M);
       O("danglechild %s", w[1]);
+    } else if (!strcmp(w[0], "typechild")) {
+      if (nw != 2 || strlen(w[1]) != 1 || !strchr("-rs", w[1][0])) BAD;
+      type_child(w[1][0]);
     } else if (!strcmp(w[0], "aliaschild")) {
       if (nw != 2 || !(!strcmp(w[1], "A") || !strcmp(w[1], "L"))) BAD;
       alias_child(!strcmp(w[1], "A") ? K_A : K_L);
@@ -1276,6 +1375,7 @@ int main(int argc, char** argv) {
   }
   I("objects=%ld xcollects=%ld forced=%ld auto=%ld marked=%ld freed=%ld registered-at-end=%zu", n_objs, n_x, n_collect_forced, n_collect_auto, n_marked_total, n_freed_total, G()->nitems);
   exiting = 1;
+  drop_instances();
   fflush(stdout);
   return 0;
 }
